@@ -18,6 +18,7 @@ EXTENDS Integers, Sequences, FiniteSets, TLC, Json, CSV, IOUtils
 
 CONSTANTS MaxHot,      \* number of fields that receive a hostile value
           MaxLen,      \* maximal value length
+          MaxEntries,  \* maximal number of entries of a multi-valued field (wwwauth[], state[])
           Emit
 
 Chars  == {"x", "eq", "LF", "CR", "NUL", "sp"}
@@ -27,19 +28,24 @@ Ops    == {"fill", "approve", "reject"}
 Values == UNION {[1..n -> Chars] : n \in 1..MaxLen}
 Plain  == <<"x">>
 
+Multi  == {"wwwauth[]", "state[]"}     \* fields supplied as a list of entries: one "k=v" line per entry
+
 VARIABLES cred,      \* field -> value (sequence of chars); fields not in DOMAIN are not supplied
+          shape,     \* multi-valued field -> <<n, k>>: supplied as n entries, cred[f] being entry k, the others plain
           protect, op, hot, sent, refused, wire,
           prior      \* TRUE: the same helper context served another URL before, whose own (URL-scoped) setting switches
                      \* the protection off; protect is the setting that applies to the URL at hand, and the
                      \* context's past is not an argument of the refusal rule
-vars == <<cred, protect, op, hot, sent, refused, wire, prior>>
+vars == <<cred, shape, protect, op, hot, sent, refused, wire, prior>>
 
 Init == /\ protect \in BOOLEAN /\ op \in Ops /\ prior \in BOOLEAN /\ (prior => protect)
-        /\ cred = [f \in {"protocol", "host"} |-> Plain]
+        /\ cred = [f \in {"protocol", "host"} |-> Plain] /\ shape = <<>>
         /\ hot = 0 /\ sent = FALSE /\ refused = FALSE /\ wire = <<>>
 
-Put(f, v) ==
+Put(f, v, n, k) ==
   /\ ~sent /\ hot < MaxHot
+  /\ n \in 1..MaxEntries /\ k \in 1..n /\ (f \notin Multi => n = 1)
+  /\ shape' = IF f \in Multi THEN [g \in DOMAIN shape \cup {f} |-> IF g = f THEN <<n, k>> ELSE shape[g]] ELSE shape
   /\ (f = "password" => op # "fill")            \* fill never carries a password
   /\ (f \in DOMAIN cred => cred[f] = Plain)     \* each field gets at most one hostile value
   /\ v # Plain
@@ -51,8 +57,14 @@ Has(v, c) == \E i \in DOMAIN v : v[i] = c
 \* the property's refusal rule
 Refuse == \E f \in DOMAIN cred : Has(cred[f], "LF") \/ Has(cred[f], "NUL") \/ (protect /\ Has(cred[f], "CR"))
 
-\* serialisation: "k=v\n" per pair; keys are atoms, values are character sequences
-Line(f) == <<f, "eq">> \o cred[f] \o <<"LF">>
+\* serialisation: "k=v\n" per pair (per entry of a multi-valued field); keys are atoms, values are
+\* character sequences.  The refusal rule above speaks about every entry: the plain ones are harmless,
+\* so it is cred[f] wherever it stands in its list that decides.
+Entries(f) == IF f \in DOMAIN shape THEN [i \in 1..shape[f][1] |-> IF i = shape[f][2] THEN cred[f] ELSE Plain] ELSE <<cred[f]>>
+RECURSIVE LinesOf(_, _)
+LinesOf(f, es) == IF es = <<>> THEN <<>> ELSE <<f, "eq">> \o Head(es) \o <<"LF">> \o LinesOf(f, Tail(es))
+Line(f) == LinesOf(f, Entries(f))
+NLines == LET RECURSIVE Sum(_) Sum(S) == IF S = {} THEN 0 ELSE LET f == CHOOSE g \in S : TRUE IN Len(Entries(f)) + Sum(S \ {f}) IN Sum(DOMAIN cred)
 RECURSIVE Cat(_, _)
 Cat(S, acc) == IF S = {} THEN acc ELSE LET f == CHOOSE g \in S : TRUE IN Cat(S \ {f}, acc \o Line(f))
 Wire == Cat(DOMAIN cred, <<>>)
@@ -61,9 +73,9 @@ Send ==
   /\ ~sent /\ sent' = TRUE
   /\ refused' = Refuse
   /\ wire' = IF Refuse THEN <<>> ELSE Wire
-  /\ UNCHANGED <<cred, protect, op, hot, prior>>
+  /\ UNCHANGED <<cred, shape, protect, op, hot, prior>>
 
-Next == (\E f \in Fields, v \in Values : Put(f, v)) \/ Send
+Next == (\E f \in Fields, v \in Values, n \in 1..MaxEntries, k \in 1..MaxEntries : Put(f, v, n, k)) \/ Send
 Spec == Init /\ [][Next]_vars
 
 \* ---- helper side -----------------------------------------------------------
@@ -83,12 +95,12 @@ ParsedLine(ln) == LET c == CutNUL(ln) IN
                     THEN [ok |-> TRUE, key |-> c[1], val |-> SubSeq(c, 3, Len(c))]
                     ELSE [ok |-> FALSE, key |-> "", val |-> c]
 HelperLines(w) == LET ls == SplitLF(w, <<>>, <<>>) IN {ParsedLine(ls[i]) : i \in DOMAIN ls}
-Supplied == {[ok |-> TRUE, key |-> f, val |-> cred[f]] : f \in DOMAIN cred}
+Supplied == UNION {{[ok |-> TRUE, key |-> f, val |-> Entries(f)[i]] : i \in DOMAIN Entries(f)} : f \in DOMAIN cred}
 
 \* C17: what the helper parses is exactly what was supplied, whenever the exchange is not refused
 HelperSeesExactlySupplied ==
   (sent /\ ~refused) => /\ HelperLines(wire) = Supplied
-                        /\ Len(SplitLF(wire, <<>>, <<>>)) = Cardinality(DOMAIN cred)
+                        /\ Len(SplitLF(wire, <<>>, <<>>)) = NLines
                         /\ (protect => \A i \in DOMAIN wire : wire[i] # "CR")
 \* and the rule is not stronger than needed: a refused exchange really had a hostile value
 RefusedOnlyWhenHostile == (sent /\ refused) => \E f \in DOMAIN cred : cred[f] # Plain
@@ -97,6 +109,6 @@ UnsafeWire == Cat(DOMAIN cred, <<>>)
 RefusalNecessary == (sent /\ refused /\ ~(\E f \in DOMAIN cred : protect /\ Has(cred[f], "CR") /\ ~Has(cred[f], "LF") /\ ~Has(cred[f], "NUL")))
                        => HelperLines(UnsafeWire) # Supplied
 
-Out == [cred |-> [f \in DOMAIN cred |-> cred[f]], fields |-> DOMAIN cred, protect |-> protect, prior |-> prior, op |-> op, refuse |-> refused]
+Out == [cred |-> [f \in DOMAIN cred |-> cred[f]], shape |-> shape, fields |-> DOMAIN cred, protect |-> protect, prior |-> prior, op |-> op, refuse |-> refused]
 EmitState == (Emit /\ sent) => CSVWrite("%1$s", <<ToJson(Out)>>, IOEnv.OUT)
 =============================================================================
